@@ -3,6 +3,8 @@ package c15
 import (
 	"bytes"
 	"io"
+
+	"verif/harness/core"
 )
 
 // Four legal io.Reader behaviours every read side must tolerate with an identical result.
@@ -11,9 +13,11 @@ const (
 	rdByte           // one byte per Read
 	rdHalf           // at most half of the requested bytes per Read
 	rdDataEOF        // the final chunk is returned together with io.EOF in the same call
+	rdBehind7        // a bytes.Reader that has already been read up to offset 7, where the data starts
+	rdBehind64       // the same behind 64 bytes (a multiple of the .splat record size)
 )
 
-var readerModes = []string{"all-at-once", "one-byte-per-read", "half-reads", "final-chunk-with-eof"}
+var readerModes = []string{"all-at-once", "one-byte-per-read", "half-reads", "final-chunk-with-eof", "positioned-behind-7-consumed-bytes", "positioned-behind-64-consumed-bytes"}
 
 type shapedReader struct {
 	data []byte
@@ -48,8 +52,13 @@ func (r *shapedReader) Read(p []byte) (int, error) {
 }
 
 func shaped(data []byte, mode int) io.Reader {
-	if mode == rdAll {
+	switch mode {
+	case rdAll:
 		return bytes.NewReader(data)
+	case rdBehind7:
+		return core.Positioned(data, 7)
+	case rdBehind64:
+		return core.Positioned(data, 64)
 	}
 	return &shapedReader{data: data, mode: mode}
 }
